@@ -58,7 +58,7 @@ class RefPeer(object):
         self.sock.settimeout(timeout)
         try:
             data = self.sock.recv(65536)
-        except TimeoutError:
+        except (TimeoutError, BlockingIOError):
             return False
         except OSError:
             self.eof = True
